@@ -31,6 +31,9 @@ def Rule.eval2 (rl : Rule) (s : St2) (n : Nbhd2 Int) (c : Nat × Nat) (t : Nat) 
   | .total k R =>
     let sum := vals.foldl (· + ·) 0
     (((R / k ^ sum.toNat) % k : Nat), s')
+  | .half k a b off s2 =>
+    let h := polyHash a b vals % (k : Int) + off
+    (if s2 = 0 then (if h ≥ 0 then h else h + 1) else h + s2, s')
 
 def Rule.toRule2 (rl : Rule) : Rule2 St2 Int := fun s n c t => rl.eval2 s n c t
 
